@@ -138,7 +138,7 @@ def main():
         na.append({"property_id": pid, "reason": reason})
     manifest = {
         "version": 1,
-        "setup_cmd": "cd /verif/harness && CARGO_NET_OFFLINE=true cargo build --release --offline && CARGO_NET_OFFLINE=true CARGO_TARGET_DIR=/verif/harness/target-chrono cargo build --release --offline --features chrono",
+        "setup_cmd": "cd /verif/harness && export CARGO_NET_OFFLINE=true RUSTFLAGS=\"${RUSTFLAGS:-} --cfg tokio_unstable\" && cargo build --release --offline && CARGO_TARGET_DIR=/verif/harness/target-chrono cargo build --release --offline --features chrono",
         "hooks": {
             "guard": "mpd_client_verif",
             "enable": "none needed: the harness drives the public API of /repo (path dependencies, rebuilt from the working tree by every check); the cfg name is reserved and unused",
